@@ -98,6 +98,26 @@ impl Prop for SortP {
                 v.push(format!("{} wide", Recv::window(c + 2, r + 2, (1, 1), (1 + c, 1 + r)).enc()));
             }
         }
+        // block sizes and integer widths: key lines of 64..66, 128..130, 255..257 cells (thorough: 65535..65537),
+        // and the OTHER dimension at 65, 70 and 130 (whole lines longer than a 64-cell strip)
+        let mut ks: Vec<usize> = vec![64, 65, 66, 70, 100, 128, 129, 130, 255, 256, 257];
+        if tier == Tier::Thorough {
+            ks.extend([512, 1000, 65535, 65536, 65537]);
+        }
+        for k in ks {
+            let (c, r) = if self.by_row { (k, 2) } else { (2, k) };
+            v.push(format!("{} wide", Recv::owned(c, r).enc()));
+            if k <= 300 {
+                v.push(format!("{} wide", Recv::window(c + 2, r + 2, (1, 1), (1 + c, 1 + r)).enc()));
+            }
+        }
+        for o in [65usize, 70, 130] {
+            for k in [3usize, 5] {
+                let (c, r) = if self.by_row { (k, o) } else { (o, k) };
+                v.push(format!("{} wide", Recv::owned(c, r).enc()));
+                v.push(format!("{} wide", Recv::window(c + 1, r + 1, (1, 0), (1 + c, r)).enc()));
+            }
+        }
         v
     }
     fn run_unit(&self, unit: &str, ctx: &mut Ctx) {
@@ -300,6 +320,24 @@ impl SortP {
             v.push((0..k).map(|i| (k - i) as u8).collect());
             v.push(vec![3; k]);
             v.push((0..k).map(|i| ((k - i) / 3) as u8).collect());
+            if k <= 255 {
+                // permutations that need about k swaps: rotation by one, strict reversal, a multiplicative shuffle
+                v.push((0..k).map(|i| ((i + 1) % k) as u8).collect());
+                v.push((0..k).map(|i| (k - 1 - i) as u8).collect());
+                v.push((0..k).map(|i| ((i * 37 + 11) % k) as u8).collect());
+            } else {
+                // more than 256 cells: keys repeat, still far from sorted (many swaps)
+                v.push((0..k).map(|i| ((i + 1) % 251) as u8).collect());
+                v.push((0..k).map(|i| ((k - 1 - i) % 256) as u8).collect());
+                v.push((0..k).map(|i| ((i * 37 + 11) % 256) as u8).collect());
+            }
+            if k > 1000 {
+                // very long lines: a handful of key lines is enough
+                v.truncate(0);
+                v.push((0..k).map(|i| ((i * 37 + 11) % 256) as u8).collect());
+                v.push((0..k).map(|i| ((k - 1 - i) % 256) as u8).collect());
+                v.push((0..k).map(|i| ((i * 3) % 4) as u8).collect());
+            }
             v
         } else {
             key_lines(k).into_iter().filter(|l| first.map_or(true, |f| l[0] == f)).collect()
